@@ -26,6 +26,7 @@ ASSUMPTIONS = [
 DECIDING = ['bp.agent:Agent._do_fwd', 'bp.agent:Agent.send_bundle', 'bp.util:BundleContainer.fix_block_num',
             'bp.util:BundleContainer.add_block', 'bp.encoding.blocks:CanonicalBlock.ensure_block_type_specific_data']
 REQUIRED_OBS = ['stack_forwards_checked', 'forwards_checked', 'hop_count_blocks_checked', 'age_blocks_checked', 'prev_node_replaced', 'fragmented_forwards_checked']
+RULE = RULE + " Whole-stack runs (vf.stack): three hosts X-Y-Z, each a real BP agent bound through bp/cla.py and the in-process bus to real UDPCL/TCPCL agents over the simulated network (datagrams reordered and duplicated, BP and UDPCL MTUs, 2-14 bundles with report requests per scenario); judged per node, conditional on what the node's adaptor popped and what the agent handed to the adaptor's sender; the stack_* counters say what was compared."
 
 NODE = 'dtn://me/'
 NOW_DTN_MS = (1767225600 - 946684800) * 1000
